@@ -5,7 +5,7 @@ import itertools
 from fractions import Fraction
 
 import common
-from common import Result, parse_kv, call_real, w_text, w_frac, frac_of, same_value
+from common import Result, parse_kv, call_real_limited as call_real, w_text, w_frac, frac_of, same_value
 
 LEVEL_TEXT = (
     'Lean theorems: the body of a wrapped function sees only validated values, and two spellings that cast '
@@ -24,7 +24,7 @@ LEVEL_NOTE = (
     'Trusted: Lean kernel (propext, Classical.choice, Quot.sound); hand models Model/Value.lean, '
     'Model/Validate.lean, Model/C08.lean (correspondence-checked); dateutil is an uninterpreted parameter; that '
     'each function BODY is insensitive to int-vs-float of an equal number is checked by correspondence only. '
-    'Known findings D22 (numpy 32-bit scalars rejected), D23 (date-like and Python-only numerals accepted).')
+    'Known findings D22 (numpy 32-bit scalars rejected), D23 (date-like text and Python underscore numerals accepted).')
 DESIGN_REF = '§4 C08'
 TRUSTED = [
     'Lean 4.33 kernel; axioms propext, Classical.choice, Quot.sound only',
@@ -101,8 +101,9 @@ def text_class(t):
     if re.fullmatch(r'\s*[+-]?(\d+\.?\d*|\.\d+)([eE][+-]?\d+)?\s*', t) or t.strip().lower() in ('true', 'false'):
         return 'numeric'
     try:
-        float(t)
-        return 'python-numeral'
+        import math
+        # a text float() reads as inf / nan (also a numeral beyond the float range) is NOT a number (D23a, fixed)
+        return 'python-numeral' if math.isfinite(float(t)) else 'garbage'
     except ValueError:
         pass
     try:
@@ -200,7 +201,7 @@ def run(ctx):
                     res.violations.append({'what': f'{name}: a spelling of the argument gives a different result',
                                            'input': inp, 'expected': want, 'got': got})
             # non-numeric text must give #VALUE!
-            for t in ['abc', '3 apples', '', 'x3', '1,5', 'may', '--1', '1_0', 'inf', 'nan', '1 2', '$3', '3%']:
+            for t in ['abc', '3 apples', '', 'x3', '1,5', 'may', '--1', '1_0', 'inf', 'nan', '-Infinity', '1e999', '1 2', '$3', '3%']:
                 args = list(base)
                 args[i] = t
                 extra = [1, 2] if name in ('NPV', 'CHOOSE') else []
